@@ -185,9 +185,12 @@ pub open spec fn rle16_run(s: Seq<u8>, width: nat, i: int, st: RleState) -> Opti
 pub open spec fn rle16_decode(s: Seq<u8>, width: nat) -> Option<Seq<u16>> {
     rle16_run(s, width, 0, RleState { img: Seq::empty(), fg: 0xffff, last_bg: false })
 }
-/// the stream (from offset i) contains a MEGA_MEGA-form header 0xF0..=0xF8 with a ZERO 16-bit run length
+/// OUT OF THE PROVED DOMAIN (from offset i):
+///  (a) a MEGA_MEGA-form header 0xF0..=0xF8 with a ZERO 16-bit run length (the decoder leaks its insert-fg-pel flag / accepts 0xF5: see the findings), or
+///  (b) on a bitmap wider than 8 pixels, an FGBG-class order (FGBG_IMAGE, SET_FG_FGBG_IMAGE, SPECIAL_FGBG_1/2) of 8 pixels or more: such an order may run
+///      through the 8-times unrolled copy of the FGBG pixel statement, whose 6^8 paths are beyond the solver (the single-statement loop IS proved)
 #[verifier::opaque]
-pub open spec fn rle16_zero_run(s: Seq<u8>, i: int) -> bool
+pub open spec fn rle16_excluded(s: Seq<u8>, width: nat, i: int) -> bool
     decreases s.len() - i
 {
     if i < 0 || i >= s.len() { false }
@@ -195,7 +198,7 @@ pub open spec fn rle16_zero_run(s: Seq<u8>, i: int) -> bool
     else {
         match rle16_parse(s, i) {
             None => false,
-            Some(o) => i < o.next <= s.len() && rle16_zero_run(s, o.next),
+            Some(o) => (o.kind is FgBgImage && rle16_npix(o) >= 8 && width > 8) || (i < o.next <= s.len() && rle16_excluded(s, width, o.next)),
         }
     }
 }
@@ -545,15 +548,15 @@ pub open spec fn rle16_code_decode(s: Seq<u8>, p0: int, mix: u16, colour1: u16, 
 /// Outside zero-length MEGA_MEGA orders: an order of the specification is decoded to its kind, run length, parameters and data offset; what is
 /// not an order ends up in an opcode that the pixel loop rejects, with a non-zero count.
 pub proof fn lemma_rle16_decode(s: Seq<u8>, width: nat, st0: RleState, p0: int, colour1: u16, colour2: u16, mask: u8, insertmix: bool)
-    requires 0 <= p0 < s.len(), !rle16_zero_run(s, p0),
+    requires 0 <= p0 < s.len(), !rle16_excluded(s, width, p0),
         rle16_code_decode(s, p0, st0.fg, colour1, colour2, mask) matches Some(d) ==> insertmix == (d.opcode == 0 && st0.last_bg && !(st0.img.len() == 0 || st0.img.len() == width)),
     ensures rle16_code_decode(s, p0, st0.fg, colour1, colour2, mask) matches Some(d) ==> (match rle16_parse(s, p0) {
             None => d.count > 0 && (d.opcode == 5 || d.opcode == 0xb || d.opcode == 0xc || d.opcode == 0xf),
-            Some(o) => insertmix == rle16_insert(st0, width, o) && d.pos <= s.len()
+            Some(o) => insertmix == rle16_insert(st0, width, o) && d.pos <= s.len() && (o.kind is FgBgImage ==> rle16_npix(o) < 8 || width <= 8)
                 && rle16_order_inv(s, width, st0, o, 0, d.opcode, d.count, false, d.pos as nat, st0.img, d.mix, insertmix, d.colour1, d.colour2, d.fom_mask, d.mask, 0),
         }),
 {
-    reveal(rle16_parse); reveal(rle16_zero_run); reveal(rle16_order_inv);
+    reveal(rle16_parse); reveal(rle16_excluded); reveal(rle16_order_inv);
     let code = s[p0];
     lemma_rle16_bits(code);
     if p0 + 2 < s.len() { lemma_rle16_le_zero(s[p0 + 1], s[p0 + 2]); }
@@ -565,12 +568,12 @@ pub proof fn lemma_rle16_decode(s: Seq<u8>, width: nat, st0: RleState, p0: int, 
 /// the specification's fold over orders advances past order o
 pub proof fn lemma_rle16_order_end(s: Seq<u8>, width: nat, st0: RleState, o: RleOrder, p0: int, k: int, opcode: u8, count: u32, bicolour: bool, pos: nat,
     img: Seq<u16>, mix: u16, insertmix: bool, colour1: u16, colour2: u16, fom_mask: u8, mask: u8, mixmask: u8)
-    requires 0 <= p0 < s.len(), rle16_parse(s, p0) == Some(o), count == 0, !rle16_zero_run(s, p0),
+    requires 0 <= p0 < s.len(), rle16_parse(s, p0) == Some(o), count == 0, !rle16_excluded(s, width, p0),
         rle16_order_inv(s, width, st0, o, k, opcode, count, bicolour, pos, img, mix, insertmix, colour1, colour2, fom_mask, mask, mixmask),
     ensures rle16_run(s, width, pos as int, RleState { img, fg: mix, last_bg: opcode == 0 }) == rle16_run(s, width, p0, st0),
-        !rle16_zero_run(s, pos as int), !insertmix, !bicolour, p0 < pos <= s.len(), st0.img.len() <= img.len(),
+        !rle16_excluded(s, width, pos as int), !insertmix, !bicolour, p0 < pos <= s.len(), st0.img.len() <= img.len(),
 {
-    reveal(rle16_order_inv); reveal(rle16_run); reveal(rle16_zero_run);
+    reveal(rle16_order_inv); reveal(rle16_run); reveal(rle16_excluded);
     lemma_rle16_parse_next(s, p0);
     assert(k == rle16_npix(o));
     assert(pos == o.next) by { reveal(rle16_parse); }
@@ -594,110 +597,57 @@ pub proof fn lemma_rle16_decode_start(s: Seq<u8>, width: nat)
 {
     reveal(rle16_decode);
 }
-// ----- FGBG_IMAGE pixel statement, proved branch by branch (each obligation is a straight-line fact of the branch it is stated in; the generic
-// lemma_rle16_pixel would need a case analysis over 6 paths per statement, 8 statements deep in the unrolled loops)
-/// the bit cursor and the mask byte are in place for pixel k; pos = input offset after pixel k
+
+// ----- the result clauses of rle_16_decompress (opaque in the body: they are also checked at the 20 error exits, where only `r is Ok` matters)
+/// decoded pixel (rr, c) is stored at row height-1-rr, column c
 #[verifier::opaque]
-pub open spec fn rle16_fgbg_ready(s: Seq<u8>, o: RleOrder, k: int, mask: u8, mixmask: u8, pos: nat) -> bool {
-    &&& 0 <= k < rle16_npix(o)
-    &&& mixmask == rle16_bit(k % 8)
-    &&& mask == rle16_maskbyte(s, o, k)
-    &&& pos == rle16_pos(o, k + 1)
-    &&& pos <= s.len()
+pub open spec fn rle16_exact(dec: Seq<u16>, width: int, height: int, out: Seq<u16>) -> bool {
+    forall|rr: int, c: int| 0 <= rr && 0 <= c < width && rr * width + c < dec.len() ==>
+        0 <= #[trigger] rle16_idx(width, height, rr, c) < out.len() && out[rle16_idx(width, height, rr, c)] == dec[rr * width + c]
 }
-/// pixel k1 - 1 is stored and `img` extended, `count` and `x` still have to be stepped
+/// the pixels of the width x height area that were not decoded are unchanged
 #[verifier::opaque]
-pub open spec fn rle16_pending(s: Seq<u8>, width: nat, st0: RleState, o: RleOrder, k1: int, opcode: u8, count: u32, bicolour: bool, pos: nat,
-    img1: Seq<u16>, mix: u16, insertmix: bool, colour1: u16, colour2: u16, fom_mask: u8, mask: u8, mixmask: u8,
-    out2: Seq<u16>, o0: Seq<u16>, orow: Seq<u16>, imgrow: Seq<u16>, top: int, l: int, x: int, base: int, prev: Option<usize>) -> bool
-{
-    &&& count > 0
-    &&& rle16_order_inv(s, width, st0, o, k1, opcode, (count - 1) as u32, bicolour, pos, img1, mix, insertmix, colour1, colour2, fom_mask, mask, mixmask)
-    &&& rle16_row_inv(out2, o0, orow, img1, imgrow, width as int, top, l, x + 1, base, prev)
+pub open spec fn rle16_frame_rows(n: int, width: int, height: int, old_out: Seq<u16>, out: Seq<u16>) -> bool {
+    forall|rr: int, c: int| 0 <= rr < height && 0 <= c < width && rr * width + c >= n ==>
+        0 <= #[trigger] rle16_idx(width, height, rr, c) < out.len() && out[rle16_idx(width, height, rr, c)] == old_out[rle16_idx(width, height, rr, c)]
 }
-proof fn lemma_rle16_shift_table(m: u8)
-    ensures (m == 0u8 ==> m << 1u8 == 0u8) && (m == 1u8 ==> m << 1u8 == 2u8) && (m == 2u8 ==> m << 1u8 == 4u8) && (m == 4u8 ==> m << 1u8 == 8u8)
-      && (m == 8u8 ==> m << 1u8 == 16u8) && (m == 16u8 ==> m << 1u8 == 32u8) && (m == 32u8 ==> m << 1u8 == 64u8) && (m == 64u8 ==> m << 1u8 == 128u8) && (m == 128u8 ==> m << 1u8 == 0u8)
-{
-    assert((m == 0u8 ==> m << 1u8 == 0u8) && (m == 1u8 ==> m << 1u8 == 2u8) && (m == 2u8 ==> m << 1u8 == 4u8) && (m == 4u8 ==> m << 1u8 == 8u8)
-      && (m == 8u8 ==> m << 1u8 == 16u8) && (m == 16u8 ==> m << 1u8 == 32u8) && (m == 32u8 ==> m << 1u8 == 64u8) && (m == 64u8 ==> m << 1u8 == 128u8) && (m == 128u8 ==> m << 1u8 == 0u8)) by(bit_vector);
+/// nothing is written beyond the width x height area
+#[verifier::opaque]
+pub open spec fn rle16_frame_tail(width: int, height: int, old_out: Seq<u16>, out: Seq<u16>) -> bool {
+    forall|i: int| width * height <= i < out.len() ==> #[trigger] out[i] == old_out[i]
 }
-/// `mixmask <<= 1` did not run off the byte: same mask byte, next bit
-pub proof fn lemma_rle16_fgbg_shift(dz: bool, s: Seq<u8>, width: nat, st0: RleState, po: Option<RleOrder>, k: int, opcode: u8, count: u32, bicolour: bool, pos: nat,
-    img: Seq<u16>, mix: u16, insertmix: bool, colour1: u16, colour2: u16, fom_mask: u8, mask: u8, mixmask: u8, sh: u8)
-    requires
-        dz || (po is Some && po->Some_0.kind is FgBgImage
-            && rle16_order_inv(s, width, st0, po->Some_0, k, opcode, count, bicolour, pos, img, mix, insertmix, colour1, colour2, fom_mask, mask, mixmask)),
-        sh == rle16_shl1(mixmask), count > 0,
-    ensures dz || (sh != 0 ==> rle16_fgbg_ready(s, po->Some_0, k, mask, sh, pos)),
-{
-    if !dz {
-        reveal(rle16_order_inv); reveal(rle16_fgbg_ready);
-        lemma_rle16_shift_table(mixmask);
-    }
-}
-/// `mixmask <<= 1` gave 0: the next mask byte (the fixed one of a SPECIAL order, or the next input byte) is loaded and the bit cursor restarts at 1
-pub proof fn lemma_rle16_fgbg_reload(dz: bool, s: Seq<u8>, width: nat, st0: RleState, po: Option<RleOrder>, k: int, opcode: u8, count: u32, bicolour: bool, pos: nat,
-    img: Seq<u16>, mix: u16, insertmix: bool, colour1: u16, colour2: u16, fom_mask: u8, mask: u8, mixmask: u8, sh: u8, mask2: u8, pos2: nat)
-    requires
-        dz || (po is Some && po->Some_0.kind is FgBgImage
-            && rle16_order_inv(s, width, st0, po->Some_0, k, opcode, count, bicolour, pos, img, mix, insertmix, colour1, colour2, fom_mask, mask, mixmask)),
-        sh == rle16_shl1(mixmask), sh == 0, count > 0,
-        mask2 == (if fom_mask != 0 { fom_mask } else { cursor_rest(s, pos)[0] }),
-        fom_mask == 0 ==> cursor_rest(s, pos).len() >= 1 && pos2 == pos + 1,
-        fom_mask != 0 ==> pos2 == pos,
-    ensures dz || rle16_fgbg_ready(s, po->Some_0, k, mask2, 1, pos2),
-{
-    if !dz {
-        reveal(rle16_order_inv); reveal(rle16_fgbg_ready);
-        lemma_rle16_shift_table(mixmask);
-    }
-}
-/// the pixel is stored in one of the two branches of `if (mask & mixmask) != 0` (bit = which one)
-pub proof fn lemma_rle16_fgbg_put(dz: bool, s: Seq<u8>, width: nat, st0: RleState, po: Option<RleOrder>, k: int, opcode: u8, count: u32, bicolour: bool, pos: nat,
-    img: Seq<u16>, mix: u16, insertmix: bool, colour1: u16, colour2: u16, fom_mask: u8, mask: u8, mixmask: u8, mask2: u8, mixmask2: u8, pos2: nat,
-    out: Seq<u16>, out2: Seq<u16>, o0: Seq<u16>, orow: Seq<u16>, imgrow: Seq<u16>, top: int, l: int, x: int, base: int, prev: Option<usize>, bit: bool, v: u16)
+// ----- FGBG_IMAGE pixel statement: same step as lemma_rle16_pixel, with the code facts stated as GUARDED implications (one per path through
+// `mixmask <<= 1; if mixmask == 0 { mask = if fom_mask != 0 { fom_mask } else { read_u8()? }; mixmask = 1; }`).  The if-then-else form of
+// rle16_code_step makes the solver enumerate the 6^8 paths of the unrolled loops; the guarded form is discharged path-locally.
+pub proof fn lemma_rle16_fgbg_pixel(dz: bool, s: Seq<u8>, width: nat, st0: RleState, po: Option<RleOrder>, k: int, opcode: u8, img: Seq<u16>, mix: u16,
+    colour1: u16, colour2: u16, fom_mask: u8,
+    count: u32, bicolour: bool, pos: nat, insertmix: bool, mask: u8, mixmask: u8,
+    count2: u32, pos2: nat, mask2: u8, mixmask2: u8,
+    out: Seq<u16>, out2: Seq<u16>, o0: Seq<u16>, orow: Seq<u16>, imgrow: Seq<u16>, top: int, l: int, x: int, base: int, prev: Option<usize>, v: u16)
     requires
         dz || (po is Some && po->Some_0.kind is FgBgImage
             && rle16_order_inv(s, width, st0, po->Some_0, k, opcode, count, bicolour, pos, img, mix, insertmix, colour1, colour2, fom_mask, mask, mixmask)
-            && rle16_fgbg_ready(s, po->Some_0, k, mask2, mixmask2, pos2)
             && rle16_row_inv(out, o0, orow, img, imgrow, width as int, top, l, x, base, prev)),
-        x < width, count > 0,
-        bit == ((mask2 & mixmask2) != 0),
-        v == (if bit { rle16_code_fg(out, prev, x, mix) } else { rle16_code_bg(out, prev, x) }),
+        x < width, count > 0, count2 == count - 1,
         out2 == out.update(l + x, v),
+        dz || !insertmix,
+        rle16_shl1(mixmask) != 0 ==> mixmask2 == rle16_shl1(mixmask) && mask2 == mask && pos2 == pos,
+        rle16_shl1(mixmask) == 0 ==> mixmask2 == 1,
+        rle16_shl1(mixmask) == 0 && fom_mask != 0 ==> mask2 == fom_mask && pos2 == pos,
+        rle16_shl1(mixmask) == 0 && fom_mask == 0 ==> mask2 == cursor_rest(s, pos)[0] && cursor_rest(s, pos).len() >= 1 && pos2 == pos + 1,
+        (mask2 & mixmask2) != 0 ==> v == rle16_code_fg(out, prev, x, mix),
+        (mask2 & mixmask2) == 0 ==> v == rle16_code_bg(out, prev, x),
     ensures
-        dz || rle16_pending(s, width, st0, po->Some_0, k + 1, opcode, count, bicolour, pos2, img.push(v), mix, insertmix, colour1, colour2, fom_mask, mask2, mixmask2,
-            out2, o0, orow, imgrow, top, l, x, base, prev),
+        dz || (rle16_order_inv(s, width, st0, po->Some_0, k + 1, opcode, count2, bicolour, pos2, img.push(v), mix, insertmix, colour1, colour2, fom_mask, mask2, mixmask2)
+            && rle16_row_inv(out2, o0, orow, img.push(v), imgrow, width as int, top, l, x + 1, base, prev)),
 {
-    if !dz {
-        let o = po->Some_0;
-        lemma_rle16_row_facts(out, o0, orow, img, imgrow, width as int, top, l, x, base, prev);
-        lemma_rle16_put(out, out2, o0, orow, img, imgrow, width as int, top, l, x, base, prev, v);
-        assert(0u16 ^ mix == mix) by(bit_vector);
-        reveal(rle16_order_inv); reveal(rle16_fgbg_ready); reveal(rle16_pending); reveal(rle16_above);
-        let ins = rle16_insert(st0, width, o);
-        assert(rle16_write(s, width, o, mix, ins, st0.img, (k + 1) as nat) == img.push(rle16_pixel(s, width, o, mix, ins, img, k)));
-        assert(v == rle16_pixel(s, width, o, mix, ins, img, k));
-    }
-}
-/// `count -= 1; x += 1;`
-pub proof fn lemma_rle16_finish(dz: bool, s: Seq<u8>, width: nat, st0: RleState, po: Option<RleOrder>, k1: int, opcode: u8, count: u32, bicolour: bool, pos: nat,
-    img1: Seq<u16>, mix: u16, insertmix: bool, colour1: u16, colour2: u16, fom_mask: u8, mask: u8, mixmask: u8,
-    out2: Seq<u16>, o0: Seq<u16>, orow: Seq<u16>, imgrow: Seq<u16>, top: int, l: int, x: int, base: int, prev: Option<usize>, count2: u32, x2: int)
-    requires
-        dz || rle16_pending(s, width, st0, po->Some_0, k1, opcode, count, bicolour, pos, img1, mix, insertmix, colour1, colour2, fom_mask, mask, mixmask,
-            out2, o0, orow, imgrow, top, l, x, base, prev),
-        count2 == count - 1, x2 == x + 1,
-    ensures
-        dz || (rle16_order_inv(s, width, st0, po->Some_0, k1, opcode, count2, bicolour, pos, img1, mix, insertmix, colour1, colour2, fom_mask, mask, mixmask)
-            && rle16_row_inv(out2, o0, orow, img1, imgrow, width as int, top, l, x2, base, prev)),
-{
-    reveal(rle16_pending);
+    lemma_rle16_pixel(dz, s, width, st0, po, RleKind::FgBgImage, k, opcode, img, mix, colour1, colour2, fom_mask,
+        count, bicolour, pos, insertmix, mask, mixmask, count2, bicolour, pos2, insertmix, mask2, mixmask2,
+        out, out2, o0, orow, imgrow, top, l, x, base, prev, v);
 }
 """, mod="rle", name="rle16_specs")
 
-ZR = "rle16_zero_run(input@, 0)"
+ZR = "rle16_excluded(input@, width as nat, 0)"
 DEC = "rle16_decode(input@, width as nat)"
 _OK = "r is Ok && !" + ZR + " ==> "
 _IDX = "rle16_idx(width as int, height as int, rr, c)"
@@ -706,14 +656,12 @@ RLE16_CONTRACT = dict(
     requires=["width * height <= old(output)@.len()"],
     ensures=[("C08", "len", "final(output)@.len() == old(output)@.len()"),
              # --- functional correctness against RLE16_SPECS (decode order: pixel (rr, c) = column c of the rr-th decoded scanline = row height-1-rr of the bitmap).
-             # Domain: streams without a zero-length MEGA_MEGA order (rle16_zero_run), see the findings in the report.
+             # Domain: streams that are not rle16_excluded (zero-length MEGA_MEGA orders; FGBG-class orders of >= 8 pixels on bitmaps wider than 8), see the report.
              ("C09", "rle16-conformant", _OK + DEC + " is Some"),
              ("C09", "rle16-size", _OK + DEC + "->Some_0.len() <= width * height"),
-             ("C09", "rle16-exact", _OK + "forall|rr: int, c: int| 0 <= rr && 0 <= c < width && rr * width + c < " + DEC + "->Some_0.len() ==> "
-              "0 <= #[trigger] " + _IDX + " < old(output)@.len() && final(output)@[" + _IDX + "] == " + DEC + "->Some_0[rr * width + c]"),
-             ("C09", "rle16-frame-rows", _OK + "forall|rr: int, c: int| 0 <= rr < height && 0 <= c < width && rr * width + c >= " + DEC + "->Some_0.len() ==> "
-              "0 <= #[trigger] " + _IDX + " < old(output)@.len() && final(output)@[" + _IDX + "] == old(output)@[" + _IDX + "]"),
-             ("C09", "rle16-frame-tail", _OK + "forall|i: int| width * height <= i < old(output)@.len() ==> #[trigger] final(output)@[i] == old(output)@[i]"),
+             ("C09", "rle16-exact", _OK + "rle16_exact(" + DEC + "->Some_0, width as int, height as int, final(output)@)"),
+             ("C09", "rle16-frame-rows", _OK + "rle16_frame_rows(" + DEC + "->Some_0.len() as int, width as int, height as int, old(output)@, final(output)@)"),
+             ("C09", "rle16-frame-tail", _OK + "rle16_frame_tail(width as int, height as int, old(output)@, final(output)@)"),
              ],
 )
 
@@ -786,7 +734,7 @@ _OUTER = """
 """ + _F_CURSOR + _F_ROWS + """
         dz || input_cursor.pos() <= input@.len(),
         dz || (rle16_run(input@, width as nat, input_cursor.pos() as int, RleState { img, fg: mix, last_bg: lastopcode == 0 }) == dec
-            && !rle16_zero_run(input@, input_cursor.pos() as int) && !insertmix && !bicolour && (line is Some && width > 0 ==> x >= 1)),
+            && !rle16_excluded(input@, width as nat, input_cursor.pos() as int) && !insertmix && !bicolour && (line is Some && width > 0 ==> x >= 1)),
     decreases
         (if input_cursor.pos() <= input@.len() { input@.len() - input_cursor.pos() } else { 0 }),
 """
@@ -804,8 +752,9 @@ _COUNT = """
 """ + _F_CURSOR + _F_ROWS + """
         """ + _SNAP_INV + """
         dz || (p0 < input@.len() && po == rle16_parse(input@, p0 as int)
-            && rle16_run(input@, width as nat, p0 as int, st0) == dec && !rle16_zero_run(input@, p0 as int)
+            && rle16_run(input@, width as nat, p0 as int, st0) == dec && !rle16_excluded(input@, width as nat, p0 as int)
             && (line is Some && width > 0 ==> x >= 1)),
+        dz || (po is Some && po->Some_0.kind is FgBgImage ==> rle16_npix(po->Some_0) < 8 || width <= 8),
         dz || (po is None ==> count > 0 && (opcode == 5 || opcode == 0xb || opcode == 0xc || opcode == 0xf)),
         dz || (po is Some ==> opcode == rle16_opcode(po->Some_0.kind) && insertmix == (rle16_insert(st0, width as nat, po->Some_0) && k == 0)
             && """ + _ORDER_INV + """),
@@ -832,6 +781,7 @@ def _repeat_inv(site):
     s += _F_CURSOR + """
         """ + _SNAP_INV + """
         x >= 1 || count > 0,
+        """ + ("dz || count < 8 || width <= 8," if _SITE_KIND[site] == "FgBgImage" else "true,") + """
         dz || !insertmix,
         dz || (po is Some && po->Some_0.kind is """ + _SITE_KIND[site] + prev + """ && """ + _ORDER_INV + """
             && rle16_row_inv(output@, o0, orow, img, imgrow, width as int, top, line->Some_0 as int, x as int, base, prevline)),
@@ -916,6 +866,7 @@ _POST = """proof {
     if !dz {
         lemma_rle16_run_end(input@, width as nat, input_cursor.pos() as int, RleState { img, fg: mix, last_bg: lastopcode == 0 });
         assert(dec == Some(img));
+        reveal(rle16_exact); reveal(rle16_frame_rows); reveal(rle16_frame_tail);
         match line {
             None => {
                 assert(img =~= Seq::<u16>::empty());
@@ -956,41 +907,30 @@ _STEP = r"\}; count -= 1; x \+= 1;"
 for _i in range(24):
     HINTS.append((_STEP, _i + 1, "proof { assert(output@.len() == old(output)@.len() && input_cursor.pos() > p0 && input_cursor.data() == input@); }", "after"))
 HINTS.append((r"x \+= 1;", 1, _pixel(_INSERT_VALUE, "BgRun"), "after"))
-for _s in range(N_SITES):
-    for _j in range(9):
-        if _SITE_KIND[_s] != "FgBgImage":
-            HINTS.append((r"x \+= 1;", 2 + 9 * _s + _j, _pixel(_SITE_VALUE[_s], _SITE_KIND[_s]), "after"))
-
-# FGBG_IMAGE sites (4: previous line e, 5: first line): the pixel statement is a block with three nested decisions (bit cursor ran off the byte?
-# fixed mask or input byte?  bit set?) and a `?`; the step is proved branch by branch with straight-line obligations (see fgbg lemmas)
-_OI_ARGS = "dz, input@, width as nat, st0, po, k, opcode, g_count, g_bic, g_pos, img, mix, insertmix, colour1, colour2, fom_mask, g_mask, g_mm"
-_FG_SHIFT = "proof { lemma_rle16_fgbg_shift(" + _OI_ARGS + ", mixmask); }"
-_FG_RELOAD = "proof { lemma_rle16_fgbg_reload(" + _OI_ARGS + ", 0u8, mask, input_cursor.pos()); }"
 
 
-def _fg_put(value, bit):
-    return ("proof { let v = " + value + "; lemma_rle16_fgbg_put(" + _OI_ARGS + ", mask, mixmask, input_cursor.pos(), "
-            "ocur, output@, o0, orow, imgrow, top, line->Some_0 as int, g_x, base, prevline, " + bit + ", v); img = img.push(v); }")
-
-
-_FG_FINISH = """proof {
-    lemma_rle16_finish(dz, input@, width as nat, st0, po, k + 1, opcode, g_count, g_bic, input_cursor.pos(), img, mix, insertmix, colour1, colour2, fom_mask, mask, mixmask,
-        output@, o0, orow, imgrow, top, line->Some_0 as int, g_x, base, prevline, count, x as int);
-    k = k + 1;
+# FGBG_IMAGE sites (4: previous line e, 5: first line): same step, code facts as guarded implications (lemma_rle16_fgbg_pixel)
+def _fg_pixel(value):
+    return """proof {
+    let v = """ + value + """;
+    lemma_rle16_fgbg_pixel(dz, input@, width as nat, st0, po, k, opcode, img, mix, colour1, colour2, fom_mask,
+        g_count, g_bic, g_pos, g_ins, g_mask, g_mm, count, input_cursor.pos(), mask, mixmask,
+        ocur, output@, o0, orow, imgrow, top, line->Some_0 as int, g_x, base, prevline, v);
+    img = img.push(v); k = k + 1;
     """ + _SNAP + """
 }"""
-_ASSIGN = r"output\[line\.unwrap\(\) \+ x\] = "
-for _j in range(18):
-    HINTS.append((r"mixmask <<= 1;", 1 + _j, _FG_SHIFT, "after"))
-    HINTS.append((r"mixmask = 1;", 1 + _j, _FG_RELOAD, "after"))
-    HINTS.append((r"x \+= 1;", 2 + 9 * 4 + _j, _FG_FINISH, "after"))
-for _j in range(9):
-    # site 4 (previous line e): `= output[e + x] ^ mix;` occurs before in the insert-fg-pel pixel (1) and in site 2 (9); `= output[e + x];` in site 0 (9)
-    HINTS.append((_ASSIGN + r"output\[e \+ x\] \^ mix;", 11 + _j, _fg_put("ocur[e + g_x] ^ mix", "true"), "after"))
-    HINTS.append((_ASSIGN + r"output\[e \+ x\];", 10 + _j, _fg_put("ocur[e + g_x]", "false"), "after"))
-    # site 5 (first line): `= mix;` occurs before in the insert-fg-pel pixel (1) and in site 3 (9); `= 0;` in site 1 (9)
-    HINTS.append((_ASSIGN + r"mix;", 11 + _j, _fg_put("mix", "true"), "after"))
-    HINTS.append((_ASSIGN + r"0;", 10 + _j, _fg_put("0u16", "false"), "after"))
+
+
+# the 8-times unrolled FGBG loops are entered only by streams outside the proved domain (rle16_excluded (b)): count >= 8 and x + 8 < width there
+_FG_SCOPE = "proof { assert(dz || count < 8 || width <= 8) by { reveal(rle16_order_inv); } }"
+for _s in range(N_SITES):
+    if _SITE_KIND[_s] == "FgBgImage":
+        HINTS.append((_UNROLLED, _s + 1, _FG_SCOPE, "before"))
+    for _j in range(9):
+        if _SITE_KIND[_s] == "FgBgImage":
+            HINTS.append((r"x \+= 1;", 2 + 9 * _s + _j, _fg_pixel(_SITE_VALUE[_s]) if _j == 8 else "proof { " + _SNAP + " }", "after"))
+        else:
+            HINTS.append((r"x \+= 1;", 2 + 9 * _s + _j, _pixel(_SITE_VALUE[_s], _SITE_KIND[_s]), "after"))
 
 CLAIMS = [
     (r"mixmask = 0;", 1, _CLAIM_INSERT, "after", "C09", "insert-fg-pel-guard"),
@@ -1011,7 +951,7 @@ proof {
 }
 let ghost o0 = output@;
 let ghost top: int = width * h0;
-let ghost dz = rle16_zero_run(input@, 0);
+let ghost dz = rle16_excluded(input@, width as nat, 0);
 let ghost dec = rle16_decode(input@, width as nat);
 let ghost mut img: Seq<u16> = Seq::empty();
 let ghost mut orow: Seq<u16> = output@;
